@@ -23,6 +23,8 @@ def msg(spec, with_time):
         m = Message(message_type=MT.TIME_SIGNATURE, channel=spec[1], numerator=spec[2], denominator=spec[3])
     elif kind == "ks":
         m = Message(message_type=MT.KEY_SIGNATURE, channel=spec[1], key=Key(spec[2]))
+    elif kind == "sc":
+        m = Message(message_type=MT.SEQUENCE_CONTROL, channel=spec[1])
     elif kind == "cap":
         # the INTERNAL end/bar marker that detokenise itself adds through add_absolute_message (absolute view only)
         m = Message(message_type=MT.INTERNAL, channel=spec[1])
@@ -174,7 +176,8 @@ def _msg_abs():
         st.tuples(st.just("off"), _CH, _P, t),
         st.tuples(st.just("ts"), _CH, st.integers(2, 5), st.just(4), t),
         st.tuples(st.just("ks"), _CH, st.sampled_from(["C", "Db", "G"]), t),
-        st.tuples(st.just("cap"), _CH, st.one_of(t, st.integers(90, 200)))).map(list)
+        st.tuples(st.just("cap"), _CH, st.one_of(t, st.integers(90, 200))),
+        st.tuples(st.just("sc"), _CH, t)).map(list)
 
 
 def _msg_rel():
@@ -185,7 +188,8 @@ def _msg_rel():
         st.tuples(st.just("off"), _CH, _P),
         st.tuples(st.just("off"), _CH, _P),
         st.tuples(st.just("ts"), _CH, st.integers(2, 5), st.just(4)),
-        st.tuples(st.just("ks"), _CH, st.sampled_from(["C", "Db", "G"]))).map(list)
+        st.tuples(st.just("ks"), _CH, st.sampled_from(["C", "Db", "G"])),
+        st.tuples(st.just("sc"), _CH)).map(list)
 
 
 def small_seqspec():
